@@ -30,11 +30,17 @@ RULE_C01 = ("layouts = Type 4A/4B x FSCI x mapping version 1.0/2.0/3.0 (04h and 
 RULE_C02 = ("(layout, old message, new message) x every cut k = 0..n after the k-th applied UPDATE BINARY; layouts put the "
             "message on both sides of the one-command / chunked boundary (MLc 1..255, NLEN 2 and 4 bytes); non-trivial when "
             "the fresh reader's view was classified")
-RULE_C03 = ("(layout with 16 guard bytes behind the declared maximum file size and an unrelated EF) x operation "
-            "(write of any length, format with wipe None/0/A5h/random); distinct by (layout, operation); non-trivial when "
-            "at least one UPDATE BINARY was inspected and memory diffed")
+RULE_C03 = ("(layout: mapping 1.0/2.0/3.0 with the 04h (NLEN 2) or 06h (ENLEN 4) control TLV, an unrelated EF, and a card "
+            "behaviour: EF physically 16/2/1 bytes larger than the declared maximum file size and silently writable there, EF "
+            "exactly the declared size, or larger EF with UPDATE BINARY range checked at the declared size; refusal SW 6700/"
+            "6B00/6A84; files of 32K-1..64K+8 bytes at the 15 bit offset limit) x operation (write of a length at area-2.."
+            "area+2 where area = min(declared size, 8000h) - length field is computed independently of the reader, at reported "
+            "capacity-2..+2, 0, 1, random; format with wipe None/0/A5h/random); every UPDATE BINARY (offset, Lc, P1 bit 8) is "
+            "checked against [0, declared size) and the memory diffed whatever the operation returned; a length above the "
+            "reported capacity must be refused before any command; distinct by (layout, operation); non-trivial when at "
+            "least one UPDATE BINARY was inspected and memory diffed, or an oversize write was judged")
 RULE_C08 = ("activation variants (ATS: every subset of TA/TB/TC x 0..15 historical bytes, short / empty / inconsistent ATS; "
-            "SENSB_RES 11..13 bytes and RFU values, ATTRIB answers), CC mutations (CCLEN, version, MLe/MLc, TLV tag/length, "
+            "SENSB_RES 1..14 bytes incl. the 13-byte extended ATQB with random SFGI, RFU values, ATTRIB answers), CC mutations (CCLEN, version, MLe/MLc, TLV tag/length, "
             "file id, sizes, truncated CC), NDEF file mutations (NLEN beyond the file, short file), status word errors at "
             "each APDU step, card gone from frame j for every j, arbitrary APDU responses and arbitrary blocks at each "
             "position, random files; distinct by the whole descriptor; non-trivial when activation was attempted and every "
@@ -46,9 +52,14 @@ RULE_C16 = ("operation (ndef read, has_changed, one-command and chunked write, i
             "(None / False / has_changed True / shorter dump) and, with the fault free result, leaves the fault free memory")
 REQUIRED_C01 = ["t4t_roundtrips", "t4t_ref_reads", "t4t_oversize_rejected", "t4t_len_capacity", "t4t_len_zero"]
 REQUIRED_C02 = ["t4t_cuts", "t4t_cut_outcome_old", "t4t_cut_outcome_new", "t4t_cut_outcome_empty"]
-REQUIRED_C03 = ["t4t_c03_ops", "t4t_c03_updates_inspected", "t4t_c03_bytes_diffed", "t4t_c03_format_wipe"]
+REQUIRED_C03 = ["t4t_c03_ops", "t4t_c03_updates_inspected", "t4t_c03_bytes_diffed", "t4t_c03_format_wipe",
+                "t4t_c03_tlv04_writes_applied", "t4t_c03_tlv06_writes_applied",
+                "t4t_c03_tlv04_write_reaches_last_declared_byte", "t4t_c03_tlv06_write_reaches_last_declared_byte",
+                "t4t_c03_tlv04_above_area_refused", "t4t_c03_tlv06_above_area_refused",
+                "t4t_c03_writes_on_file_larger_than_declared", "t4t_c03_writes_on_range_checking_card",
+                "t4t_c03_write_up_to_offset_limit", "t4t_c03_beyond_offset_limit_refused", "t4t_c03_oversize_refused"]
 REQUIRED_C08 = ["t4t_c08_cases", "t4t_c08_outcome_ndef", "t4t_c08_outcome_none", "t4t_c08_ats_variants",
-                "t4t_c08_sensb_variants", "t4t_c08_stop_positions"]
+                "t4t_c08_sensb_variants", "t4t_c08_sensb_extended_atqb", "t4t_c08_stop_positions"]
 REQUIRED_C16 = ["t4t_c16_cells", "t4t_c16_within_budget_same", "t4t_c16_beyond_budget_reported", "t4t_c16_dup_checked",
                 "t4t_c16_normal_returns_judged"]
 
@@ -445,6 +456,19 @@ def replay_c02(case, R):
 # C03
 # =================================================================================================================
 GUARD = 16
+C03_CARDS = [
+    # (guard bytes behind the declared maximum file size, where the card range checks UPDATE BINARY, status word when refused)
+    (16, "physical", "std"), (16, "physical", "std"), (2, "physical", "std"), (1, "physical", "6B00"),
+    (0, "physical", "std"), (0, "physical", "6A84"), (0, "physical", "6B00"),
+    (16, "declared", "6A84"), (16, "declared", "6B00"), (16, "declared", "std"),
+]
+
+
+def c03_area(lay):
+    """independent computation of the largest message that stays inside the declared NDEF file: maximum NDEF file size of
+    the CC minus the NLEN (04h TLV) / ENLEN (06h TLV) field; UPDATE BINARY without offset data object only reaches
+    offsets 0..7FFFh (P1 bit 8 selects short EF identifier addressing), so nothing behind byte 8000h is writable"""
+    return min(lay["fsize"], 0x8000) - ns_of(lay)
 
 
 def c03_eval(R, case, count=True):
@@ -452,14 +476,25 @@ def c03_eval(R, case, count=True):
     lay = dict(case["lay"], decoy=True)
     prev = content(case["mseed"] + 1, case.get("prev_len", 0))
     lay["tail"] = content(case["mseed"] + 2, 64)
-    card = t4t.make_card(lay, prev, guard=GUARD)
+    guard = lay.get("guard", GUARD)
+    card = t4t.make_card(lay, prev, guard=guard)
     fid = card.ndef_fid
+    fsize = lay["fsize"]
+    tl = "tlv%02X" % lay.get("tlv", 4)
     before = card.snapshot()
     op = case["op"]
+    L = rep = None
+    oversize = False
+    n0 = None
     try:
         clf, dev, tag = act(card, lay)
-        if op[0] == "write":
-            tag.ndef.octets = content(case["mseed"], op[1])
+        if op[0] in ("write", "write_rel"):
+            ndef = tag.ndef
+            rep = ndef.capacity
+            L = op[1] if op[0] == "write" else max(0, rep + op[1])
+            oversize = L > rep
+            n0 = dev.n_commands
+            ndef.octets = content(case["mseed"], L)
             res = "ok"
         else:
             res = repr(tag.format(wipe=op[1]))
@@ -468,16 +503,27 @@ def c03_eval(R, case, count=True):
     if count:
         R.count("t4t_c03_ops")
         R.count("t4t_c03_op_%s" % op[0])
+        R.count("t4t_c03_%s_ops" % tl)
         R.seen("t4t_c03_result", res)
+        R.seen("t4t_c03_card", "guard%d/%s/%s" % (guard, lay.get("enforce", "physical"), lay.get("beyond_sw", "std")))
         if op[0] == "format" and op[1] is not None:
             R.count("t4t_c03_format_wipe")
+    if oversize and n0 is not None:
+        # a message longer than the capacity the tag object reports is refused before anything is sent
+        if res == "ok":
+            R.violation("t4t/c03/oversize-not-refused/accepted", "%d bytes written, reported capacity %d" % (L, rep), case)
+        elif dev.n_commands != n0:
+            R.violation("t4t/c03/oversize-not-refused/commands-sent", "%d commands reached the card for %d bytes, reported "
+                        "capacity %d (%s)" % (dev.n_commands - n0, L, rep, res), case)
+        elif count:
+            R.count("t4t_c03_oversize_refused")
     after = card.files
     nd = 0
     for f, old in before.items():
         new = bytes(after[f])
         nd += len(old)
         if f == fid:
-            if new[lay["fsize"]:] != old[lay["fsize"]:]:
+            if new[fsize:] != old[fsize:]:
                 R.violation("t4t/c03/changed/beyond-max-file-size", "bytes behind the declared maximum NDEF file size changed", case)
         elif new != old:
             R.violation("t4t/c03/changed/%s" % ("cc-file" if f == ref.CC_FID else "other-file"), "file %04X changed" % f, case)
@@ -485,15 +531,40 @@ def c03_eval(R, case, count=True):
         if sel != fid:
             R.violation("t4t/c03/update-binary-on/%s" % ("cc-file" if sel == ref.CC_FID else ("no-file" if sel is None else "other-file")),
                         "UPDATE BINARY while file %s is selected" % (sel,), case)
-        elif lc is not None and off + lc > lay["fsize"]:
+        elif off & 0x8000:
+            R.violation("t4t/c03/update-binary-short-ef-addressing", "UPDATE BINARY P1 %02Xh: bit 8 set addresses an EF by short "
+                        "identifier, not offset %d of the NDEF file (SW %04X)" % (off >> 8, off, sw), case)
+        elif lc is not None and off + lc > fsize:
             R.violation("t4t/c03/update-binary-beyond-max-file-size", "UPDATE BINARY offset %d + Lc %d > file size %d (SW %04X)"
-                        % (off, lc, lay["fsize"], sw), case)
+                        % (off, lc, fsize, sw), case)
     if count:
         R.count("t4t_c03_updates_inspected", len(card.update_cmds))
         R.count("t4t_c03_bytes_diffed", nd)
-        if any(off + (lc or 0) == lay["fsize"] for sel, off, lc, sw in card.update_cmds):
+        applied_to_end = any(off + (lc or 0) == fsize and sw == 0x9000 for sel, off, lc, sw in card.update_cmds)
+        if any(off + (lc or 0) == fsize for sel, off, lc, sw in card.update_cmds):
             R.count("t4t_c03_update_ends_at_file_end")
-    return bool(card.update_cmds)
+        if L is not None:
+            area = c03_area(lay)
+            R.seen("t4t_c03_len_minus_area_%s" % tl, max(-3, min(3, L - area)))
+            if rep is not None and rep < lay["fsize"] - ns_of(lay):
+                R.count("t4t_c03_capacity_below_file_size_%s" % tl)
+            if res == "ok" and card.update_cmds:
+                R.count("t4t_c03_%s_writes_applied" % tl)
+                if guard and lay.get("enforce", "physical") == "physical":
+                    R.count("t4t_c03_writes_on_file_larger_than_declared")
+                else:
+                    R.count("t4t_c03_writes_on_range_checking_card")
+                if L == area:
+                    R.count("t4t_c03_%s_write_fills_area" % tl)
+                    if applied_to_end:
+                        R.count("t4t_c03_%s_write_reaches_last_declared_byte" % tl)
+                    if fsize >= 0x8000:
+                        R.count("t4t_c03_write_up_to_offset_limit")
+            if L > area and res != "ok" and n0 is not None and dev.n_commands == n0:
+                R.count("t4t_c03_%s_above_area_refused" % tl)
+                if fsize > 0x8000:
+                    R.count("t4t_c03_beyond_offset_limit_refused")
+    return bool(card.update_cmds) or (oversize and n0 is not None)
 
 
 def plan_c03(tier):
@@ -509,17 +580,34 @@ def run_c03(desc, R, rng):
             lay["mlc"] = rng.choice([2, 4, 5, 13, 52, 100, 246, 255, rng.randrange(1, 256)])
         if lay["mlc"] < 6:
             lay["fsize"] = min(lay["fsize"], 120)
-        cap = lay["fsize"] - ns_of(lay)
-        if rng.random() < 0.55:
-            op = ["write", rng.choice([0, 1, cap, cap, cap - 1, rng.randrange(cap + 1)])]
+        big = rng.random() < 0.05
+        if rng.random() < (0.6 if big else 0.2):
+            # gen_layout gives the extended control TLV to one layout in five: mapping 3.0 with ENLEN gets its own share
+            lay["ver"], lay["tlv"], lay["fsize"] = 0x30, 6, max(lay["fsize"], 7)
+        if big:
+            # files at / behind the 15 bit offset limit (cost bound: large commands and frames)
+            # (MLc 128: a chunk boundary falls exactly on offset 8000h, the first offset P1/P2 cannot express)
+            lay["fsize"] = rng.choice([0x7FFE, 0x7FFF] if lay["tlv"] == 4 else
+                                      [0x7FFF, 0x8000, 0x8001, 0x8004, 0x8100, 0x10008, 0x10008])
+            lay["mlc"] = rng.choice([255, 255, 128, 128, 246, 0xFFFF])
+            lay["fsci"], lay["max_send"], lay["max_recv"] = 8, 290, 290
+        lay["guard"], lay["enforce"], lay["beyond_sw"] = rng.choice(C03_CARDS)
+        cap = c03_area(lay)
+        r = rng.random()
+        if r < 0.4 or (big and r < 0.5):
+            op = ["write", max(0, rng.choice([cap - 2, cap - 1, cap, cap, cap + 1, cap + 2]))]
+        elif r < 0.5 or (big and r < 0.8):
+            op = ["write_rel", rng.choice([-2, -1, 0, 0, 1, 2])]
+        elif r < 0.62:
+            op = ["write", rng.choice([0, 1, rng.randrange(cap + 1)]) if not big else rng.randrange(600)]
         else:
             op = ["format", rng.choice([None, 0, 0xA5, 0xA5, rng.randrange(256), 256 + 0x5A])]
         case = {"family": FAM, "prop": "c03", "lay": lay, "op": op, "mseed": rng.randrange(1 << 30),
-                "prev_len": rng.choice([0, cap, rng.randrange(cap + 1)])}
+                "prev_len": rng.choice([0, cap, rng.randrange(cap + 1)]) if not big else rng.choice([0, 9])}
         ok = c03_eval(R, case)
         R.case(("c03", lay_key(lay), str(op)), nontrivial=ok)
         if i < 1:
-            R.sample({"t4t_c03": {k: lay[k] for k in ("kind", "tlv", "mlc", "fsize")}, "op": op})
+            R.sample({"t4t_c03": {k: lay[k] for k in ("kind", "tlv", "mlc", "fsize", "guard", "enforce")}, "op": op})
 
 
 def replay_c03(case, R):
@@ -728,7 +816,9 @@ def c08_cases(rng, tier, which, size=None):
                         d, _f = raw_valid(rng)
                         d["kind"] = "B"
                         d["fsci"], d["fwi"] = min(fsci, 8), min(fwi, 14)
-                        full = b"\x50" + bytes.fromhex("30702A1C") + bytes(4) + bytes([0, fsci << 4 | rng.choice([1, 0, 5]), fwi << 4 | 5, 0x20, 0])
+                        # byte 13 is the 4th protocol info byte of the extended ATQB (SFGI | RFU; ISO/IEC 14443-3 7.9.4)
+                        full = b"\x50" + bytes.fromhex("30702A1C") + bytes(4) + bytes([0, fsci << 4 | rng.choice([1, 0, 5]), fwi << 4 | 5,
+                                                                                        rng.choice([0x20, rng.randrange(256)]), 0])
                         d["sensb"] = full[:n]
                         d["attrib"] = rng.choice([b"\x00", b"\x00", b"\x10", b"", b"\x0F" + content(3, 9), "mute"])
                         yield base(d, "sensb_variants")
@@ -864,6 +954,9 @@ def run_c08(desc, R, rng):
                 R.count("t4t_c08_ats_variants")
             elif case["cls"] == "sensb_variants":
                 R.count("t4t_c08_sensb_variants")
+                if len(case["card"]["sensb"]) == 13:
+                    R.count("t4t_c08_sensb_extended_atqb")
+                    R.seen("t4t_c08_extended_atqb_sfgi", case["card"]["sensb"][12] >> 4)
             elif case["cls"] == "stop_positions":
                 R.count("t4t_c08_stop_positions")
             if n < 1:
